@@ -171,6 +171,12 @@ def resp_oracle(line, case):
     return None
 
 
+def floatok_oracle(line, case):
+    if line not in ('1', 'na'):
+        return f'float text does not satisfy the contract (plain decimal that parses back bit-exactly): {line}'
+    return None
+
+
 def relational(cases, impl):
     """same bytes for every writer that has room"""
     fails = []
@@ -269,6 +275,11 @@ def resp_cases(rng, tier):
              ('t', [('int', 'u8', 1), ('unit',)]), ('hv', []), ('sl', []), ('t', [('int', 'i16', -5), ('t', [('str', b'a"b'), ('bool', True)]), ('f64', 0x4024000000000000)])]
     for _ in range(400 if tier == 'quick' else 6000):
         vals.append(rand_value(rng))
+    # the float contract FloatTextOk, evaluated by the implementation (its own formatter and parser) and by the model
+    for v in vals:
+        if v[0] in ('f32', 'f64'):
+            w = 8 if v[0] == 'f32' else 16
+            out.append(Case(f'FLOATOK {v[0]} 0x{v[1]:0{w}x}', floatok_oracle, {'kind': 'FLOATOK'}))
     for gi, v in enumerate(vals):
         e = expr(v)
         for wr in ('std', 'pt', 'hl256'):
